@@ -26,6 +26,11 @@ MARKUP = ('<!DOCTYPE html><html lang="en"><head><title>t</title></head><body><!-
 SELS = ['div > p:nth-child(2) span:lang(en), :checked, p.x:-soup-contains(one)', ':empty', ':root', 'p:-soup-contains-own(comment)', ':-soup-contains(pi)',
         'p:not(:empty)', ':root > body', ':is(p, i):last-child', ':default', ':dir(ltr)', '[id]', ':nth-last-of-type(1)', 'html:has(> body i:empty)']
 
+NSDOC = ('<r xmlns:xlink="http://www.w3.org/1999/xlink" xmlns:o="urn:o"><a xlink:href="#1" o:k="v">x</a><a href="#2">y</a><o:a xlink:href="#3"/>'
+         '<b xml:lang="en"><a/></b></r>')
+NSSELS = ['[xlink|href]', '[*|href]', ':not([xlink|href])', 'o|a', '[o|k]', 'a[href]', ':lang(en) > a', 'o|*:not([o|k])']
+NSMAP = {'xlink': 'http://www.w3.org/1999/xlink', 'o': 'urn:o'}
+
 CHILD = r'''
 import sys, io, json
 _o, _e = io.StringIO(), io.StringIO()
@@ -45,6 +50,10 @@ try:
     _s = bs4.BeautifulSoup(%r, 'html.parser')
     _res['r1'] = [[str(t)[:40] for t in _s.select(q)] for q in %r]
     _res['r2'] = [[str(t)[:40] for t in soupsieve.select(q, _s)] for q in %r]
+    for _p in ('xml', 'html5lib'):
+        _n = bs4.BeautifulSoup(%r, _p)
+        _res['r1'] += [[str(t)[:40] for t in _n.select(q, namespaces=%r)] for q in %r]
+        _res['r2'] += [[str(t)[:40] for t in soupsieve.select(q, _n, namespaces=%r)] for q in %r]
 except BaseException as _x:
     _res['after'] = type(_x).__name__ + ': ' + str(_x)[:200]
 %s
@@ -55,7 +64,7 @@ print(json.dumps(_res))
 def _run_child(args):
     stmts, logged, repo = args
     body = '\n'.join('    ' + s for s in stmts)
-    prog = (imports.LOGGER if logged else '') + CHILD % (body, MARKUP, SELS, SELS, "_res['events'] = _ev" if logged else '')
+    prog = (imports.LOGGER if logged else '') + CHILD % (body, MARKUP, SELS, SELS, NSDOC, NSMAP, NSSELS, NSMAP, NSSELS, "_res['events'] = _ev" if logged else '')
     env = dict(os.environ)
     env['PYTHONPATH'] = repo
     env.pop('PYTHONWARNINGS', None)
@@ -112,7 +121,7 @@ def main(tier):
     for s, st, c, lg in zip(scripts, script_steps, clean, logged):
         name = '; '.join(s)
         p = pred.get(json.dumps(st, sort_keys=True), {})
-        model_err = p.get('err', '?')
+        model_err = p.get('err', '?') if p.get('soft', 'none') == 'none' else p.get('soft')
         chk.count(2, traces=1)
         chk.nontrivial(name)
         bad = []
@@ -151,5 +160,5 @@ def main(tier):
         if len(chk.coverage['samples']) < 3:
             chk.sample({'script': name, 'model_err': model_err, 'interpreter_exc': c.get('exc'), 'module_order': ev_real[:8]})
     # T-ImportSafe on the model: a predicted failure that the interpreter does not confirm is drift, a confirmed one was reported above
-    chk.notes['model_predicted_failures'] = sum(1 for p in pred.values() if p.get('err') != 'none')
+    chk.notes['model_predicted_failures'] = sum(1 for p in pred.values() if p.get('err') != 'none' or p.get('soft', 'none') != 'none')
     return chk.finish()
